@@ -1,4 +1,4 @@
-import PbVerif.Lemmas.Pad2d
+import PbVerif.Lemmas.Pad2dLin
 /-! C18 — padding and kernel helpers preserve the data and its length. -/
 namespace PbVerif.C18
 open PbVerif.Pad PbVerif.Lemmas
@@ -175,5 +175,24 @@ example : padEdges2dExtrap [[1, 2], [3, 5]] [1, 0] none = .notImplemented := by 
 example : padEdges2dExtrap [[1, 2], [3, 5]] [1, -1] none = .valueError := by decide +kernel
 example : padEdges2dExtrap [[1, 2], [3, 5]] [1, 2, 1, 9] (some [2]) =
     .ok [[-1, -1, -1, -1], [0, 1, 2, 3], [1, 3, 5, 7], [2, 5, 8, 11]] := by decide +kernel
+
+/-- **the two corner estimates are the same number**: padding the rows and padding the columns commute
+(each is a multiplication by a fixed matrix, on the right and on the left), so the mean taken in the four
+corners by `_extrapolate2d` is the mean of a value with itself and the whole result is
+"pad the columns, then pad the rows" = "pad the rows, then pad the columns"; all data, sizes, windows -/
+theorem extrap2d_corner_orders_agree (y : List (List Rat)) (M N pr pc wt wb wl wr : Nat) (hM : y.length = M)
+    (hrect : ∀ row ∈ y, row.length = N) (hM1 : 1 ≤ M) (hN1 : 1 ≤ N) :
+    padCols (padRows y pc wl wr) pr wt wb = padRows (padCols y pr wt wb) pc wl wr ∧
+    extrapolate2d y pr pc wt wb wl wr = padRows (padCols y pr wt wb) pc wl wr :=
+  extrapolate2d_eq_orders y M N pr pc wt wb wl wr hM hrect hM1 hN1
+/-- so every row of the result, the top and bottom strips with the corners included, is the 1-D `padEdges`
+of the corresponding row of the column-padded data: a corner IS the 1-D extension of a strip -/
+theorem pad2d_all_rows_are_1d (y : List (List Rat)) (M N pr pc wt wb wl wr : Nat) (hM : y.length = M)
+    (hrect : ∀ row ∈ y, row.length = N) (hM1 : 1 ≤ M) (hN1 : 1 ≤ N) (k : Nat) (hk : k < M + 2 * pr) :
+    (extrapolate2d y pr pc wt wb wl wr).getD k [] =
+      padEdges ((padCols y pr wt wb).getD k []) pc (min wl N) (min wr N) :=
+  extrapolate2d_all_rows y M N pr pc wt wb wl wr hM hrect hM1 hN1 k hk
+example : padCols (padRows [[1, 2, 4], [0, 5, 3]] 2 3 2) 1 2 1 = padRows (padCols [[1, 2, 4], [0, 5, 3]] 1 2 1) 2 3 2 ∧
+    (extrapolate2d [[1, 2, 4], [0, 5, 3]] 1 2 2 1 3 2).getD 0 [] = [-5/2, -1, 2, -1, 5, 11, 17] := by decide +kernel
 
 end PbVerif.C18
